@@ -81,6 +81,7 @@ def tabu_search[T, M](
 
         rng.shuffle(candidates)
         best_move, best_neighbor, best_neighbor_obj = None, None, float("inf")
+        found = False  # a flag, because None is a legitimate solution or move label
 
         for move, neighbor in candidates:
             neighbor_obj = evaluate(neighbor)
@@ -88,8 +89,9 @@ def tabu_search[T, M](
                 continue
             if neighbor_obj < best_neighbor_obj:
                 best_neighbor_obj, best_neighbor, best_move = neighbor_obj, neighbor, move
+                found = True
 
-        if best_neighbor is None:
+        if not found:
             break
 
         solution, obj = best_neighbor, best_neighbor_obj
